@@ -102,6 +102,15 @@ add("C19", "Frontend.tla models producer, relay and receiver with one action per
     "schedules of length 3 exhaustively and <= 40 sampled on the code; chains of length 2.",
     "TLA+ model of the streaming chain model-checked over all interleavings; TLC trace validation of scheduled and threaded real runs", "6/C19")
 
+add("C08", "AdfSyntax.tla is a recursive-descent recogniser of the documented grammar over code points, in a strict and a lenient (blanks anywhere) "
+    "variant. MC_Syntax: Parse(Render(ast, layout)) = ast for every formula to depth 2 over a keyword-like and a quoted label and every documented "
+    "layout, and every single-token damage leaves even the lenient grammar. Real parser: seeded well-formed files and suspicious mutations; TLC classifies "
+    "each text itself (strict accepts = MUST_ACCEPT, lenient rejects = MUST_REJECT, else DONT_CARE) and judges verdict, labels, declaration order, the "
+    "meaning of every parsed formula and the natively compiled diagram of every statement; rejected texts also go through the real CLI in all three modes.",
+    "Trusted: TLC evaluating spec/AdfSyntax.tla; the harness converting the parser's public Formula values to JSON. Bounded: texts <= 156 characters, "
+    "<= 4 statements; whitespace outside the documented places is DONT_CARE.",
+    "TLA+ recogniser of the documented grammar (round trip model-checked) as three-valued oracle; TLC trace validation of real parser / CLI observations", "6/C08")
+
 def main():
     hooks = subprocess.run(["git", "-C", "/repo", "log", "--format=%H %s"], stdout=subprocess.PIPE, text=True).stdout.splitlines()
     hook_commits = [l.split()[0] for l in hooks if " verif hook" in l]
